@@ -277,8 +277,8 @@ CLAIMED["C09"] = dict(
     "ghost-free view and with an explicit index selects what the counting evaluator selects there; _join_delete_insert keeps the "
     "accepted text; the accept simulation at tree level for all actions (C09_accept_simulation: no text tags, no "
     "use_replace, tree before finalize - if the patcher accepts the script, every formatter handler succeeds and the accepted view "
-    "of the working tree, ghosts dropped, diff: attributes removed, marked texts read back, is the patched tree up to a one-to-one renaming of node ids - the patcher is proved independent of ids; for the scripts of the model differ all script-level hypotheses are discharged: C09_differ_script; with the text engine model inside the formatter model - every text handler on the answer diff_main + diff_cleanupSemantic give for the text the working tree holds against the new text, any diff_bisect behaviour - nothing is assumed along the run any more: C09_differ_script_engine, from C17 at-most-once through the marked-at-most-once invariant, hypotheses on the two documents only: texts of at most 27000 characters, no WS_TEXT normalisation); one text update end to end at text level (C09_text_update_accept: _make_diff_tags on the modelled diff_main + "
-    "diff_cleanupSemantic of two texts without private-use characters, then undo_string: accepting every wrapper spells the new text). after finalize, wrappers as elements, the accept-all projection of the output tree is the patched document up to ids (C09_differ_script_output, C09_C10_finalize_reads; with C01 and C07: C09_C10_pipeline - match, script, format, finalize, accept = the right document as a value; the projection function is compared with the oracle's on every real output, unit U9p). PARTIAL: text tags, use_replace and WS_TEXT normalisation are not proved; the property is decided on every run "
+    "of the working tree, ghosts dropped, diff: attributes removed, marked texts read back, is the patched tree up to a one-to-one renaming of node ids - the patcher is proved independent of ids; for the scripts of the model differ all script-level hypotheses are discharged: C09_differ_script; with the text engine model inside the formatter model - every text handler on the answer diff_main + diff_cleanupSemantic give for the text the working tree holds against the new text, any diff_bisect behaviour - nothing is assumed along the run any more: C09_differ_script_engine, from C17 at-most-once through the marked-at-most-once invariant, hypotheses on the two documents only: texts of at most 27000 characters, WS_TEXT normalisation only on texts that are already whitespace-normal); one text update end to end at text level (C09_text_update_accept: _make_diff_tags on the modelled diff_main + "
+    "diff_cleanupSemantic of two texts without private-use characters, then undo_string: accepting every wrapper spells the new text). after finalize, wrappers as elements, the accept-all projection of the output tree is the patched document up to ids (C09_differ_script_output, C09_C10_finalize_reads; with C01 and C07: C09_C10_pipeline - match, script, format, finalize, accept = the right document as a value; the projection function is compared with the oracle's on every real output, unit U9p). PARTIAL: text tags, use_replace and WS_TEXT normalisation of texts that are not whitespace-normal are not proved; the property is decided on every run "
     "by the accept-all projection of the real output against R. Known findings X1 (text after a comment lost) and X2 (tail of a "
     "deleted / moved node unmarked) are violations of the pinned code that cannot be repaired without editing golden-file tests.",
     note=_XMLNOTE,
@@ -289,8 +289,8 @@ CLAIMED["C10"] = dict(
     text="Lean 4 lemmas: _join_delete_insert keeps the rejected text in old-text (C10_join_keeps_both_texts), positions and addressing "
     "as in C09; the reject invariant at tree level, moves included (C10_reject_invariant: no handler changes the rejected view of the "
     "working tree - inserted nodes and moved copies dropped, old tags from diff:rename, marked texts read back - so it stays the left "
-    "document without its attributes; for the scripts of the model differ with the text engine model inside the formatter model the side conditions - renamed at most once, text / tail marked at most once, each answer rejecting to the current text - are proved, not assumed: C10_differ_script_engine, texts of at most 27000 characters, no WS_TEXT normalisation); one text update end to end at text level (C10_text_update_reject: rejecting every wrapper spells the old text). "
-    "after finalize, wrappers as elements, the reject-all projection of the output tree is the left document without its attributes (C10_differ_script_output, C09_C10_finalize_reads; unit U9p). PARTIAL: the attribute annotations, text tags, use_replace and WS_TEXT normalisation are not proved; decided on every run by the reject-all projection of "
+    "document without its attributes; for the scripts of the model differ with the text engine model inside the formatter model the side conditions - renamed at most once, text / tail marked at most once, each answer rejecting to the current text - are proved, not assumed: C10_differ_script_engine, texts of at most 27000 characters, WS_TEXT normalisation only on texts that are already whitespace-normal); one text update end to end at text level (C10_text_update_reject: rejecting every wrapper spells the old text). "
+    "after finalize, wrappers as elements, the reject-all projection of the output tree is the left document without its attributes (C10_differ_script_output, C09_C10_finalize_reads; unit U9p). PARTIAL: the attribute annotations, text tags, use_replace and WS_TEXT normalisation of texts that are not whitespace-normal are not proved; decided on every run by the reject-all projection of "
     "the real output against L (values of deleted attributes not recorded; annotations decoded for names / values free of ';' ':'). "
     "Known finding X1.",
     note=_XMLNOTE,
